@@ -3,7 +3,7 @@
 # Confirms in the scratch worktree /tmp/wt/confirm: demo passes without the change, fails with it,
 # related existing tests pass with it. Leaves the worktree pristine.
 d=$1; shift
-wt=/tmp/wt/confirm
+wt=${WT:-/tmp/wt/confirm}
 git -C $wt checkout -q -- . && git -C $wt clean -fdq
 cp $d/demo_test.py $wt/_demo_test.py
 run() { unshare -n -- bash -c "ip link set lo up; cd $wt && timeout 900 /venv/bin/python -m pytest -q -p no:cacheprovider --timeout=600 $* 2>&1 | tail -2"; }
